@@ -1,6 +1,7 @@
 package scen
 
 import (
+	"encoding/json"
 	"fmt"
 	"sort"
 	"strings"
@@ -17,6 +18,8 @@ import (
 	"verif/sim/simrt"
 	"verifharness/core"
 	"verifharness/gen"
+
+	"sigs.k8s.io/yaml"
 )
 
 func init() {
@@ -287,6 +290,9 @@ func c12(r *core.Run) {
 	specT := c12Spec("T", "d2")
 	specA := c12Spec("A", "d0", "d1")
 	specB := c12Spec("B", "d1", "d2")
+	// the encodings of the two states differ in LENGTH, so that bytes of one
+	// written with the length of the other are neither (S-C10-l)
+	specB.Annotations = map[string]string{"pad": "0123456789abcdef"}
 	for _, d := range []string{c12D0, c12D1, c12D2} {
 		e.admin.MkdirAll(d, 0o755)
 	}
@@ -326,18 +332,34 @@ func c12(r *core.Run) {
 
 	// ---- state tracking by an omniscient observer ----
 	stamp := func(phase int64) int64 { return int64(e.w.Step)*3 + phase }
+	jsonOf := func(sp *specs.Spec) string { b, _ := json.Marshal(sp); return string(b) }
+	imgA, imgB := jsonOf(specA), jsonOf(specB)
+	diskState := map[string]int{}
 	diskOf := func() int {
 		ent, ok := e.w.FS.Lookup(c12F)
 		if !ok {
 			return fAbsent
 		}
-		switch {
-		case strings.Contains(ent.Data, "CDI_SIM=A."):
-			return fA
-		case strings.Contains(ent.Data, "CDI_SIM=B."):
-			return fB
+		// exactly state A or exactly state B (as a decoded Spec, in either
+		// encoding); anything else - a prefix, a mixture, one state's bytes
+		// followed by the other's tail - is partial content
+		if d, ok := diskState[ent.Data]; ok {
+			return d
 		}
-		return -1
+		d := -1
+		var sp specs.Spec
+		if err := yaml.Unmarshal([]byte(ent.Data), &sp); err == nil {
+			switch img, _ := json.Marshal(&sp); string(img) {
+			case imgA:
+				d = fA
+			case imgB:
+				d = fB
+			}
+		}
+		if len(diskState) < 64 {
+			diskState[ent.Data] = d
+		}
+		return d
 	}
 	curDisk := diskOf()
 	seenDisk := map[int]bool{curDisk: true}
